@@ -2,6 +2,7 @@ import S2T.Lemmas.HtmlSkip
 import S2T.Gen.HtmlSkip
 import S2T.Props.C17_Src
 import S2T.Props.C17_Life
+import S2T.Props.C17_Charset
 /-!
 # C17 — Removed markup is removed completely and takes nothing else with it
 
